@@ -685,6 +685,20 @@ pub fn timelock_seal(b: &Bls, pk: &Pt, msg: &[u8], id_point: &Pt, alpha: &Scalar
     let w = xor(&f, &shake128(&alpha_le, f.len()));
     TimeLock { u, v, w }
 }
+/// the same with alpha given as the 32 bytes the opener will see (it treats them as an opaque string: another
+/// implementation may write its alpha big-endian, or draw it from {0,1}^256)
+pub fn timelock_seal_raw_alpha(b: &Bls, pk: &Pt, msg: &[u8], id_point: &Pt, alpha32: &[u8; 32]) -> TimeLock {
+    let mut r_in = alpha32.to_vec();
+    r_in.extend_from_slice(&Sha256::digest(msg));
+    let r = hkdf_scalar(TIMELOCK_SALT, &r_in);
+    let k = pair(id_point, &pk.mul(&r));
+    let u = b.pk_gen().mul(&r);
+    let hk = Sha256::digest(gt_bytes(&k));
+    let v: [u8; 32] = xor(alpha32, &hk).try_into().unwrap();
+    let f = frame(msg);
+    let w = xor(&f, &shake128(alpha32, f.len()));
+    TimeLock { u, v, w }
+}
 pub fn timelock_open(b: &Bls, c: &TimeLock, sig: &Pt) -> Option<Vec<u8>> {
     if sig.is_identity() || c.u.is_identity() {
         return None;
